@@ -1,5 +1,5 @@
-import Banyan.Model.Util
+import Banyan.Model.C07Wire
 open Banyan
 
-/- stub: model driver for C07 not built yet -/
-def main : IO Unit := runDriver fun _ => "bad-op"
+/- model driver for C07 (shares the `seg` line protocol with C06) -/
+def main : IO Unit := runDriver SegWire.handle
